@@ -2,14 +2,15 @@
 # tools/confirm_seed.sh <name> <dir with patch.diff + demo.rs> <crate dir relative to repo root>
 # Confirms in the scratch worktree /tmp/wt/confirm (created from /repo HEAD on first use):
 #   with the change: existing suite passes (77) and the demo fails; without it: the demo passes.
-# Appends a JSON line to /tmp/wt/confirm.log
+# Appends a JSON line to /tmp/wt/confirm.log (CONFIRM_WT / CONFIRM_LOG override the worktree and the log)
 set -u
 NAME="$1"; DIR="$2"; CRATE="$3"; BASE="${4:-$(git -C /repo rev-parse HEAD)}"
-WT=/tmp/wt/confirm
+WT=${CONFIRM_WT:-/tmp/wt/confirm}
+CLOG=${CONFIRM_LOG:-/tmp/wt/confirm.log}
 [ -d "$WT" ] || git -C /repo worktree add -q --detach "$WT" HEAD
 cd "$WT" && git checkout -q --detach "$BASE" && git checkout -- . && git clean -fdq -e target
 PKG=$(grep -m1 '^name' "$CRATE/Cargo.toml" | sed 's/.*"\(.*\)".*/\1/')
-git apply "$DIR/patch.diff" || { echo "{\"seed\":\"$NAME\",\"error\":\"patch does not apply\"}" >> /tmp/wt/confirm.log; exit 1; }
+git apply "$DIR/patch.diff" || { echo "{\"seed\":\"$NAME\",\"error\":\"patch does not apply\"}" >> "$CLOG"; exit 1; }
 # DEMO_FEATURES (env): cargo features the demo needs (the suite is then run without the demo file and the
 # two results are added, because the demo refuses to compile without the feature)
 FEAT=${DEMO_FEATURES:+--features $DEMO_FEATURES}
@@ -28,4 +29,4 @@ git apply -R "$DIR/patch.diff"
 DEMO_WITHOUT=$(cargo test --offline -p "$PKG" $FEAT --test verif_demo 2>&1 | grep -E "^test result" | awk '{p+=$4; f+=$6} END {print p" "f}')
 rm -f "$CRATE/tests/verif_demo.rs"; rmdir "$CRATE/tests" 2>/dev/null
 git checkout -- . ; git clean -fdq -e target
-echo "{\"seed\":\"$NAME\",\"base\":\"$BASE\",\"suite_plus_demo_with_change_pass_fail\":\"$SUITE\",\"demo_with_change_pass_fail\":\"$DEMO_WITH\",\"demo_without_change_pass_fail\":\"$DEMO_WITHOUT\"}" >> /tmp/wt/confirm.log
+echo "{\"seed\":\"$NAME\",\"base\":\"$BASE\",\"suite_plus_demo_with_change_pass_fail\":\"$SUITE\",\"demo_with_change_pass_fail\":\"$DEMO_WITH\",\"demo_without_change_pass_fail\":\"$DEMO_WITHOUT\"}" >> "$CLOG"
